@@ -3,6 +3,6 @@
 cd /verif
 export GOFLAGS=-mod=mod GOPROXY=off GOSUMDB=off GOTOOLCHAIN=local GOWORK=off GOCACHE=/verif/.cache/gocache
 cat > .cache/overlay-scratch.json <<EOT
-{"Replace": {"/repo/zz_verif_export.go": "/verif/export/tcell_export.go", "/repo/terminfo/zz_verif_export.go": "/verif/export/terminfo_export.go"}}
+{"Replace": {"/repo/zz_verif_export.go": "/verif/export/tcell_export.go", "/repo/zz_verif_export_native.go": "/verif/export/tcell_export_native.go", "/repo/zz_verif_export_wasm.go": "/verif/export/tcell_export_wasm.go", "/repo/terminfo/zz_verif_export.go": "/verif/export/terminfo_export.go"}}
 EOT
 go build -tags verif -overlay .cache/overlay-scratch.json -o "$2" "$1"
